@@ -49,3 +49,8 @@ impl<W> writer_::Writer<W> {
         }
     }
 }
+
+/// `k` is the index of the '>' of a "]]>" in `s`
+pub open spec fn cdata_close_at(s: Seq<u8>, k: int) -> bool {
+    2 <= k < s.len() && s[k] == 0x3e && s[k - 1] == 0x5d && s[k - 2] == 0x5d
+}
